@@ -36,7 +36,7 @@ ASSUMPTIONS = ["resident, not virtual, memory is judged: bound 48 MiB + 2048 x i
                "hang = no result within 20 s for an input that normally takes < 5 ms, confirmed by two re-runs"]
 PROBES = ["kind_random", "kind_mutated", "kind_hostile", "returned", "raised", "raised_MemoryError",
           "hostile_table_sizes", "hostile_frame_length", "hostile_nesting", "hostile_string_length",
-          "hostile_options_position", "hostile_many_frames", "frontend_raw", "frontend_buffered", "children_forked"]
+          "hostile_options_position", "hostile_many_frames", "hostile_long_varint", "frontend_raw", "frontend_buffered", "children_forked"]
 SHRINK_LISTS = ["inputs"]
 WALL = {"quick": 1500, "thorough": 20000}
 RSS_BASE = 48 << 20
@@ -73,7 +73,7 @@ SIZES = [4097, 5000, 1 << 16, 1 << 20, 1 << 24, 1 << 28, (1 << 31) - 1, (1 << 32
 
 def gen_hostile(rng):
     t = rng.choice(["table_sizes", "table_sizes", "frame_length", "nesting", "string_length", "options_position",
-                    "many_frames", "entry_ids"])
+                    "many_frames", "entry_ids", "long_varint"])
     h = {"kind": "hostile", "template": t, "seed": rng.randrange(1 << 30), "delimited": rng.random() < 0.7}
     if t == "table_sizes":
         h["which"] = rng.choice(["names", "prefixes", "datatypes", "all"])
@@ -93,6 +93,9 @@ def gen_hostile(rng):
     elif t == "many_frames":
         h["count"] = rng.choice([1000, 100000])
         h["variant"] = rng.choice(["empty", "empty_then_valid", "tiny_rows"])
+    elif t == "long_varint":
+        h["length"] = rng.choice([11, 64, 4096, 1 << 16, 1 << 18, 1 << 20])
+        h["where"] = rng.choice(["start", "after_frame", "inside_row"])
     else:
         h["count"] = rng.choice([1, 10, 5000])
         h["id"] = rng.choice([0, 1, 16, 17, 4096, 4097, 1 << 16, 1 << 20, 1 << 22, 1 << 24, 1 << 26, (1 << 32) - 1])
@@ -246,6 +249,15 @@ def build_hostile(rec, rng) -> bytes:
         first = wire.Frame([wire.enc_row(("options", _opts()))]).encode()
         tiny = wire.Frame([wire.enc_row(("name", 0, "n"))]).encode()
         return wire.join_delimited([first] + [tiny] * n)
+    if t == "long_varint":
+        run = b"\xff" * rec["length"] + b"\x01"
+        first = wire.write_stream([wire.Frame([wire.enc_row(("options", _opts()))] + _stmt_rows())], True)
+        if rec["where"] == "start":
+            return run + first
+        if rec["where"] == "after_frame":
+            return first + run + b"abc"
+        row = wire.key(9, 2) + run
+        return stream([wire.enc_row(("options", _opts())), row])
     # entry ids
     rows = [wire.enc_row(("options", _opts()))]
     for i in range(rec["count"]):
